@@ -27,7 +27,7 @@ def src_path(reg, src_dir):
     return os.path.join(src_dir, os.path.basename(reg.file))
 
 
-def run_functions(prop, contract_module, function_names, kinds='all', src_dir=None, timeout_ms=None, replay=True, c_file=None):
+def run_functions(prop, contract_module, function_names, kinds='all', src_dir=None, timeout_ms=None, replay=True, c_file=None, configs=None):
     from .clang_ast import TU, FrontEndError
     from .verify import verify_function, SAFETY_KINDS, FUNCTIONAL_KINDS
     from . import replay as rp
@@ -49,7 +49,8 @@ def run_functions(prop, contract_module, function_names, kinds='all', src_dir=No
         ks = FUNCTIONAL_KINDS + ('engine', 'vacuity')
     used = set()
     for fn in function_names:
-        fe, res = verify_function(tu, reg, fn, prop=prop, timeout_ms=timeout_ms, kinds=ks, replayer=rp.replay_violation if replay else None)
+        fe, res = verify_function(tu, reg, fn, prop=prop, timeout_ms=timeout_ms, kinds=ks, replayer=rp.replay_violation if replay else None,
+                                  only_configs=configs)
         out['functions'].append(fe)
         out['results'] += res
         used.update(fe.get('callee_contracts_used', []))
@@ -61,12 +62,44 @@ def run_functions(prop, contract_module, function_names, kinds='all', src_dir=No
     return out
 
 
-def c_unit(prop, uid, contract_module, function_names, kinds='all', src_dir=None, timeout_ms=None, tiers=('quick', 'thorough'), weight=1):
+def c_unit(prop, uid, contract_module, function_names, kinds='all', src_dir=None, timeout_ms=None, tiers=('quick', 'thorough'), weight=1,
+           configs=None):
+    """one runner unit verifying the listed functions of one C file (all configurations of their contracts, or only the
+    named ones: heavy functions are spread over several units, see plan())"""
     fns = list(function_names)
 
     def run():
-        return run_functions(prop, contract_module, fns, kinds, src_dir, timeout_ms)
+        return run_functions(prop, contract_module, fns, kinds, src_dir, timeout_ms, configs=configs)
     return Unit(uid, run, 'cvc', tiers, weight)
+
+
+def plan(contract_module, function_names=None, chunk_seconds=25):
+    """[(function, [config names] | None, weight)]: the work of a contract module cut into pieces of roughly equal cost
+    (weights from the registry's `cost` hints: seconds per configuration)"""
+    reg = load_registry(contract_module)
+    out = []
+    for fn, c in reg.contracts.items():
+        if c.abstract or (function_names is not None and fn not in function_names):
+            continue
+        per = getattr(c, 'cost', None) or 1.0
+        names = [cfg.get('name', 'default') for cfg in c.configs]
+        if len(names) == 1 or per * len(names) <= chunk_seconds:
+            out.append((fn, None, per * len(names)))
+            continue
+        k = max(1, int(chunk_seconds / per))
+        for i in range(0, len(names), k):
+            out.append((fn, names[i:i + k], per * len(names[i:i + k])))
+    return out
+
+
+def c_units(prop, contract_module, function_names=None, kinds='all', src_dir=None, timeout_ms=None, tiers=('quick', 'thorough')):
+    """the units of a whole contract module, heavy functions split by configuration"""
+    reg = load_registry(contract_module)
+    us = []
+    for fn, cfgs, w in plan(contract_module, function_names):
+        uid = '%s.%s' % (reg.area, fn) + ('' if cfgs is None else '[%s..%s]' % (cfgs[0], cfgs[-1]))
+        us.append(c_unit(prop, uid, contract_module, [fn], kinds, src_dir, timeout_ms, tiers, weight=w, configs=cfgs))
+    return us
 
 
 def scan_unit(prop, which, src_dir=None, tiers=('quick', 'thorough'), weight=1):
